@@ -615,3 +615,43 @@ func VerifC17_V2TwoWriters() {
 	}
 	verif.Reach("all-steps-done")
 }
+
+// VerifC07_V2ImportNoKeyInClear: importing a bundle writes nothing that depends on private or symmetric key bytes other
+// than through encryption — also for a key that was only *marked* destroyed (SetState) and still carries its data.
+func VerifC07_V2ImportNoKeyInClear() {
+	suite := verifSuite("")
+	src := verifOpen(backend.NewInMemory(), suite)
+	k1 := verif.Bytes("symkey1", 32)
+	k2 := verif.Bytes("symkey2", 32)
+	verif.Secret(k1)
+	verif.Secret(k2)
+	r, err := src.OpenKeyRingRW("client/a/storage-sym")
+	if err != nil {
+		return
+	}
+	s1, err := r.AddKey(verifSymKey(k1))
+	verif.Assert(err == nil, "add-1")
+	s2, err := r.AddKey(verifSymKey(k2))
+	verif.Assert(err == nil, "add-2")
+	if err != nil {
+		return
+	}
+	r.SetCurrent(s2)
+	if verif.Choose("mark-first-destroyed", 0, 1) == 1 {
+		if r.SetState(s1, api.KeyDestroyed) != nil {
+			return
+		}
+	}
+	exSuite := verifSuite("-export")
+	bundle, err := src.(*KeyStore).ExportKeyRings([]string{"client/a/storage-sym"}, exSuite, 2) // ExportPrivateKeys
+	verif.Assert(err == nil, "export")
+	if err != nil {
+		return
+	}
+	dstBackend := verifWrap(backend.NewInMemory())
+	dst := verifOpen(dstBackend, verifSuite("-target"))
+	_, err = dst.(*KeyStore).ImportKeyRings(bundle, exSuite, nil)
+	verif.Reach("imported")
+	verif.Assert(err == nil, "import")
+	verif.NoLeak("no-key-material-in-clear-after-import")
+}
